@@ -131,7 +131,7 @@ def decPairsUntil (stop : UInt8) (dec : Bytes → Res (V × Bytes)) : Nat → By
   `unicode.UTF8.NewDecoder()`, which replaces every MAXIMAL SUBPART of an ill-formed sequence by U+FFFD
   (encoding/unicode/unicode.go:120-200).  `tostring` of a raw field (the `bytes`/`bin` rows of the
   `_F_torepr` reducers) replaces every ill-formed BYTE by U+FFFD (Go's `utf8.DecodeRune` width-1 rule).
-  Both are the identity on well-formed UTF-8. -/
+  Both are the identity on well-formed UTF-8 (FieldUTF8: that does not start with a byte order mark). -/
 
 def fffd : Bytes := [0xef, 0xbf, 0xbd]
 
@@ -177,12 +177,17 @@ def sanitizeGo (perByte : Bool) : Nat → Bytes → Bytes
                 if !isCont b3 then (if perByte then fffd ++ sanitizeGo perByte fuel rest else fffd ++ sanitizeGo perByte fuel r2)
                 else c :: b1 :: b2 :: b3 :: sanitizeGo perByte fuel r3
 
-/-- x/text `unicode.UTF8` decoder -/
-def sanitizeX (bs : Bytes) : Bytes := sanitizeGo false bs.length bs
+/-- `d.FieldUTF8` → `tryText(n, UTF8BOM)` (pkg/decode/decode_gen.go:20522): x/text `unicode.UTF8BOM` decoder —
+    ONE leading byte order mark EF BB BF is dropped (known finding `utf8-bom-stripped`: a string value that
+    starts with U+FEFF loses it), the rest goes through the maximal-subpart replacement -/
+def sanitizeX (bs : Bytes) : Bytes :=
+  match bs with
+  | 0xef :: 0xbb :: 0xbf :: r => sanitizeGo false r.length r
+  | _ => sanitizeGo false bs.length bs
 /-- per-byte replacement (`tostring` of raw bytes) -/
 def sanitizeG (bs : Bytes) : Bytes := sanitizeGo true bs.length bs
 
-/-- well-formed UTF-8 = what the x/text decoder leaves unchanged -/
+/-- what `d.FieldUTF8` leaves unchanged: well-formed UTF-8 that does not start with U+FEFF -/
 def validUTF8 (bs : Bytes) : Bool := sanitizeX bs == bs
 
 /-! ### the jq reducer -/
